@@ -1,8 +1,9 @@
 # Copyright (c) Microsoft Corporation. All rights reserved.
 # Licensed under the MIT License.
+import enum
 import sys
 import threading
-from typing import Any, Optional, Sequence, Tuple, Union
+from typing import Any, Optional, Sequence, Tuple, Union, get_args, get_origin
 
 import attrs
 import cattrs
@@ -45,7 +46,39 @@ def register_hooks(converter: cattrs.Converter) -> cattrs.Converter:
     return _register_custom_property_hooks(converter)
 
 
+def _is_custom_value_enum_type(type_: Any) -> bool:
+    """Detects `Union[SomeEnum, str]` and `Union[SomeEnum, int]` (optionally with `None`),
+    the type generated for enumerations that support custom values."""
+    if get_origin(type_) is not Union:
+        return False
+    args = [a for a in get_args(type_) if a is not type(None)]
+    return (
+        len(args) == 2
+        and isinstance(args[0], type)
+        and issubclass(args[0], enum.Enum)
+        and args[1] in (str, int)
+    )
+
+
 def _register_capabilities_hooks(converter: cattrs.Converter) -> cattrs.Converter:
+    def _custom_value_enum_hook_factory(type_: Any) -> Any:
+        enum_type = get_args(type_)[0]
+
+        def _custom_value_enum_hook(object_: Any, _: type) -> Any:
+            if object_ is None:
+                return None
+            if isinstance(object_, (bool, int, str, float)):
+                return object_
+            return converter.structure(object_, enum_type)
+
+        return _custom_value_enum_hook
+
+    # Handles every enumeration that supports custom values, including the ones
+    # that have no dedicated `*_kind_hook` in the list below (same behavior).
+    converter.register_structure_hook_factory(
+        _is_custom_value_enum_type, _custom_value_enum_hook_factory
+    )
+
     def _text_document_sync_hook(
         object_: Any, _: type
     ) -> Union[OptionalPrimitive, lsp_types.TextDocumentSyncOptions]:
